@@ -353,7 +353,6 @@ macro_rules! heartbeat_e2e {
 }
 heartbeat_e2e!(c07_heartbeat_e2e_cut0_pl1, 0, 1);
 heartbeat_e2e!(c07_heartbeat_e2e_cut0_pl4, 0, 4);
-heartbeat_e2e!(c07_heartbeat_e2e_cut1_pl0, 1, 0);
 
 fn a_len(v: &Vec<TlsMessage>) -> usize {
     match v.first() {
@@ -408,3 +407,4 @@ macro_rules! any_state_step {
 any_state_step!(c07_any_state_step_d0, 0);
 any_state_step!(c07_any_state_step_d1, 1);
 any_state_step!(c07_any_state_step_d2, 2);
+
